@@ -476,12 +476,22 @@ fn serve(rt: &tokio::runtime::Runtime, task: &mut HTask, watcher: &mut StateWatc
 fn limits_sweep(cli: &Cli) -> Sweep {
     let mut sw = Sweep::new(
         "request-limits (Task::run, process_request)",
-        "for max_headers_per_request in {0,1,3,5} x max_txs_per_request in {0,1,3} x chain length {2,6}: one real Task (inline processors, cache capacity 2) is fed, in order, SealedHeaders and Transactions requests for every range a..a+len with a in {0,1,4} and len in 0..=max+2, a reversed range, 0..u32::MAX and (u32::MAX-1)..u32::MAX, then TxPoolFullTransactions with 0..=max+2 ids (known and unknown) and TxPoolAllTransactionsIds; oracle: response is RequestedRangeTooLarge iff the length exceeds the limit, otherwise exactly the database/pool data (an error code other than RequestedRangeTooLarge when the database has a hole); non-trivial = requests within one of the limit (len >= max-1), distinct by (config, request)",
+        "for max_headers_per_request in {0,1,3,5} (+100 thorough) x max_txs_per_request in {0,1,3} (+10000 thorough) x chain length {2,6}: one real Task (inline processors, cache capacity 2) is fed, in order, SealedHeaders and Transactions requests for every range a..a+len with a in {0,1,4} and len in 0..=max+2, a reversed range, 0..u32::MAX and (u32::MAX-1)..u32::MAX, then TxPoolFullTransactions with 0..=max+2 ids (known and unknown) and TxPoolAllTransactionsIds; oracle: response is RequestedRangeTooLarge iff the length exceeds the limit, otherwise exactly the database/pool data (an error code other than RequestedRangeTooLarge when the database has a hole); non-trivial = requests within one of the limit (len >= max-1), distinct by (config, request)",
     );
     let rt = tokio::runtime::Builder::new_current_thread().enable_all().build().expect("runtime");
-    let _ = cli;
-    for max_h in [0usize, 1, 3, 5] {
-        for max_t in [0usize, 1, 3] {
+    // lengths around a limit: everything up to max+2 for small limits, the edges for the production-sized ones
+    let around = |max: usize| -> Vec<usize> {
+        if max <= 8 {
+            (0..=max + 2).collect()
+        } else {
+            vec![0, 1, max - 1, max, max + 1, max + 2]
+        }
+    };
+    let thorough = cli.tier == Tier::Thorough;
+    let max_hs: &[usize] = if thorough { &[0, 1, 3, 5, 100] } else { &[0, 1, 3, 5] };
+    let max_ts: &[usize] = if thorough { &[0, 1, 3, 10_000] } else { &[0, 1, 3] };
+    for &max_h in max_hs {
+        for &max_t in max_ts {
             for chain_len in [2u32, 6] {
                 let db = Db::new(chain_len);
                 let pool = FakePool { asked_max: Default::default() };
@@ -495,7 +505,7 @@ fn limits_sweep(cli: &Cli) -> Sweep {
                 let mut n = 0u64;
                 let mut ranges: Vec<Range<u32>> = vec![];
                 for a in [0u32, 1, 4] {
-                    for len in 0..=(max_h as u32 + 2) {
+                    for len in around(max_h).into_iter().map(|l| l as u32) {
                         ranges.push(a..a + len);
                     }
                 }
@@ -534,7 +544,7 @@ fn limits_sweep(cli: &Cli) -> Sweep {
                     }
                 }
                 // transaction-id requests
-                for count in 0..=(max_t + 2) {
+                for count in around(max_t) {
                     for known in [true, false] {
                         n += 1;
                         let ids: Vec<TxId> = (0..count).map(|i| if known { pool_txs()[i % 6].0 } else { unknown_txid(i) }).collect();
